@@ -69,7 +69,9 @@ func addLink(ctx context.Context, ds ipld.DAGService, root *dag.ProtoNode, child
 		return nil, err
 	}
 
-	_ = ds.Remove(ctx, root.Cid())
+	// The previous version of root is deliberately left in the (temporary)
+	// dagservice: a block with the same CID may still be referenced from
+	// another place in the tree being edited.
 
 	// ensure no link with that name already exists
 	_ = root.RemoveNodeLink(childname) // ignore error, only option is ErrNotFound
@@ -122,8 +124,6 @@ func (e *Editor) insertNodeAtPath(ctx context.Context, root *dag.ProtoNode, path
 	if err != nil {
 		return nil, err
 	}
-
-	_ = e.tmp.Remove(ctx, root.Cid())
 
 	_ = root.RemoveNodeLink(path[0])
 	err = root.AddNodeLink(path[0], ndprime)
@@ -181,8 +181,6 @@ func (e *Editor) rmLink(ctx context.Context, root *dag.ProtoNode, path []string)
 	if err != nil {
 		return nil, err
 	}
-
-	_ = e.tmp.Remove(ctx, root.Cid())
 
 	_ = root.RemoveNodeLink(path[0])
 	err = root.AddNodeLink(path[0], nnode)
